@@ -2280,3 +2280,151 @@ pub fn c12(args: &Args) -> Report {
     rep.set("option_bits", json!(bits.len()));
     rep
 }
+
+// ------------------------------------------------------------------------------------------------
+// C17, part 2: whole requests through Server on a dirty-tracked guest memory (8-byte pages)
+
+pub fn c17_requests(rep: &mut Report, thorough: bool) {
+    use std::io::{Seek, SeekFrom, Write};
+    use std::os::unix::io::{AsRawFd, FromRawFd};
+    let fs = Arc::new(ScriptFs::new());
+    let server = Server::new(fs.clone());
+    let virt = Virtio::new(8, 1 << 16, 1 << 16);
+    let mut src = unsafe {
+        let fd = libc::memfd_create(b"fbrv-c17\0".as_ptr() as *const libc::c_char, 0);
+        std::fs::File::from_raw_fd(fd)
+    };
+    let filedata = payload_of(300);
+    src.write_all(&filedata).unwrap();
+    src.seek(SeekFrom::Start(0)).unwrap();
+    let mut idx = 0u64;
+    // (label, opcode, size field, answer)
+    let mut cases: Vec<(String, u64, u64, Answer)> = Vec::new();
+    for (l, sz, dl) in [("read-buf", 64u64, 50usize), ("read-buf-exact", 50, 50), ("read-buf-empty", 64, 0), ("read-buf-200", 256, 200)] {
+        let mut a = Answer::default();
+        a.data = payload_of(dl);
+        cases.push((l.into(), k::FUSE_READ, sz, a));
+    }
+    for (l, sz) in [("read-file-64", 64u64), ("read-file-300", 300), ("read-file-short", 400), ("read-file-0", 0)] {
+        let mut a = Answer::default();
+        a.read_from_fd = Some(src.as_raw_fd());
+        a.data = filedata.clone();
+        cases.push((l.into(), k::FUSE_READ, sz, a));
+    }
+    for (l, op, sz) in [("readdir", k::FUSE_READDIR, 120u64), ("readdirplus", k::FUSE_READDIRPLUS, 400), ("readdir-none-fit", k::FUSE_READDIR, 16)] {
+        let mut a = Answer::default();
+        a.dirents = (0..6).map(|i| DirAns { ino: 10 + i, off: 1 + i, typ: 8, name: name_of(3 + i as usize * 2, i as u8), entry: base_answer().entry }).collect();
+        cases.push((l.into(), op, sz, a));
+    }
+    {
+        let mut a = Answer::default();
+        a.data = payload_of(33);
+        cases.push(("getxattr-value".into(), k::FUSE_GETXATTR, 64, a.clone()));
+        a.xattr_count = Some(33);
+        cases.push(("getxattr-size".into(), k::FUSE_GETXATTR, 0, a));
+    }
+    cases.push(("lookup".into(), k::FUSE_LOOKUP, 0, base_answer()));
+    cases.push(("getattr".into(), k::FUSE_GETATTR, 0, base_answer()));
+    cases.push(("write".into(), k::FUSE_WRITE, 0, base_answer()));
+    cases.push(("forget".into(), k::FUSE_FORGET, 0, base_answer()));
+    {
+        let mut a = Answer::default();
+        a.fail = Some(Fail::Errno(libc::EIO));
+        cases.push(("lookup-error".into(), k::FUSE_LOOKUP, 0, a.clone()));
+        cases.push(("read-error".into(), k::FUSE_READ, 64, a.clone()));
+        cases.push(("readdir-error".into(), k::FUSE_READDIR, 64, a));
+    }
+    let mut layouts: Vec<(Vec<usize>, Vec<usize>, usize)> = Vec::new();
+    let wrs: Vec<Vec<usize>> = vec![vec![16, 1024], vec![1040], vec![15, 1, 1024], vec![16, 7, 0, 9, 1008], vec![8, 8, 8, 8, 1008], vec![3, 13, 100, 0, 924]];
+    let aligns: Vec<usize> = if thorough { (0..8).collect() } else { vec![0, 1, 5, 7] };
+    for wr in &wrs {
+        for &al in &aligns {
+            for cuts in [vec![], vec![40], vec![13, 41]] {
+                layouts.push((cuts, wr.clone(), al));
+            }
+        }
+    }
+    for (label, op, size, ans) in &cases {
+        for (cuts, wr, al) in &layouts {
+            for gap in [0usize, 8, 13] {
+                if !rep.mine(idx) {
+                    idx += 1;
+                    continue;
+                }
+                idx += 1;
+                let mut c = wf_case(*op);
+                if c.f.contains_key("size") {
+                    c.f.insert("size", *size);
+                }
+                let req = c.req().bytes();
+                // lay out with the writable area starting `al` bytes off a page boundary
+                let (rd, mut wrs) = virt_layout(req.len(), cuts, wr, gap, true);
+                for s in wrs.iter_mut() {
+                    s.addr += *al as u64;
+                }
+                let mut written: Vec<bool> = Vec::new();
+                let mut dirty: Vec<bool> = Vec::new();
+                let mut addrs: Vec<u64> = Vec::new();
+                let mut outs: Vec<String> = Vec::new();
+                let mut problems: Vec<String> = Vec::new();
+                for flip in [false, true] {
+                    virt.flip.set(flip);
+                    fs.reset(ans.clone());
+                    src.seek(SeekFrom::Start(0)).unwrap();
+                    let ex = virt.run(&server, &req, &rd, &wrs, false);
+                    rep.transitions += 1;
+                    if let Some(p) = &ex.panic {
+                        problems.push(format!("panic: {}", p));
+                    }
+                    problems.extend(ex.problems.iter().cloned());
+                    outs.push(format!("{:?}", ex.ret.as_ref().map_err(|_| "err")));
+                    if written.is_empty() {
+                        written = ex.area.iter().map(|x| x.1).collect();
+                        dirty = ex.area.iter().map(|x| x.2).collect();
+                        addrs = ex.area.iter().map(|x| x.0).collect();
+                    } else {
+                        for (i, x) in ex.area.iter().enumerate() {
+                            written[i] = written[i] || x.1;
+                            if dirty[i] != x.2 {
+                                problems.push(format!("dirty bit of gpa {:#x} differs between two identical runs", x.0));
+                                break;
+                            }
+                        }
+                    }
+                }
+                virt.flip.set(false);
+                rep.eval();
+                let mut must: std::collections::BTreeSet<u64> = Default::default();
+                for (i, w) in written.iter().enumerate() {
+                    if *w {
+                        must.insert(addrs[i] / 8);
+                    }
+                }
+                let mut is: std::collections::BTreeSet<u64> = Default::default();
+                for (i, d) in dirty.iter().enumerate() {
+                    if *d {
+                        is.insert(addrs[i] / 8);
+                    }
+                }
+                let mut class = None;
+                if let Some(pg) = must.difference(&is).next() {
+                    class = Some(("modified-not-dirty", format!("page {:#x} was modified by the server and is not marked dirty", pg * 8)));
+                } else if let Some(pg) = is.difference(&must).next() {
+                    class = Some(("dirty-not-modified", format!("page {:#x} is marked dirty, the server modified nothing in it", pg * 8)));
+                }
+                rep.outcome(&format!("request:{}:{}:{}", label, outs[0], if class.is_none() && problems.is_empty() { "ok" } else { "VIOLATION" }));
+                rep.state_of(&(label, cuts, wr, al, gap));
+                rep.sample(|| json!({"request": label, "readable_cuts": cuts, "writable": wr, "align": al, "gap": gap, "modified_pages": must.len(), "dirty_pages": is.len()}));
+                if let Some((cl, msg)) = class {
+                    rep.violation(&format!("C17/request/{}/{}", ops::op_name(*op), cl), &msg, || {
+                        json!({"engine": "c17-request", "request": label, "cuts": cuts, "wr": wr, "align": al, "gap": gap, "modified_pages": must.iter().map(|p| p * 8).collect::<Vec<_>>(), "dirty_pages": is.iter().map(|p| p * 8).collect::<Vec<_>>()})
+                    });
+                }
+                for p in problems {
+                    rep.violation(&format!("C17/request/{}/environment", ops::op_name(*op)), &p, || json!({"engine": "c17-request", "request": label, "cuts": cuts, "wr": wr, "align": al, "gap": gap}));
+                }
+            }
+        }
+    }
+    rep.set("whole_request_cases_all_shards", json!(idx));
+}
